@@ -54,7 +54,7 @@ type PluginSpec struct {
 
 // Fault is what goes wrong with a plugin during the main request. Kind:
 //
-//	none | cut | close | hang | error | wrongtype | undecodable | garbage | dying | exit
+//	none | cut | close | hang | error | wrongtype | undecodable | garbage | dying | exit | leave
 type Fault struct {
 	Kind string `json:"kind"`
 
@@ -66,6 +66,11 @@ type Fault struct {
 	// (0 = closes at once). -1 = never closes: the runtime has to give up on it after the
 	// request timeout, whether its write of the request went through (small request) or not.
 	StallMs int `json:"stall_ms,omitempty"`
+	// cut, dir r2p: before the request the plugin issues PressCalls unsolicited UpdateContainers
+	// requests, each answered with PressKB KiB of failed updates, and does not read the answers
+	// (K then counts from the first response byte): socket pressure from the plugin's own calls
+	PressCalls int `json:"press_calls,omitempty"`
+	PressKB    int `json:"press_kb,omitempty"`
 
 	When    string `json:"when,omitempty"`     // close: before | during | after
 	DelayUs int    `json:"delay_us,omitempty"` // close before: pause between the close and the request
@@ -80,6 +85,13 @@ type Fault struct {
 	Type  int    `json:"type,omitempty"`  // wrongtype, garbage(ttrpc): ttRPC message type byte
 	Level string `json:"level,omitempty"` // undecodable: frame | payload ; garbage: trunk | mux | ttrpc
 	Bytes []byte `json:"bytes,omitempty"` // undecodable body / garbage body
+
+	// error and leave: having answered, the plugin leaves ThenMs ms after its response has been
+	// written out completely. Then: "" (it stays) | "stop" (stub.Stop()) | "peer" (its end of
+	// the connection is closed) | "exit" (launched plugins: the process exits).
+	// Kind "leave" is a plugin that answers normally and then leaves.
+	Then   string `json:"then,omitempty"`
+	ThenMs int    `json:"then_ms,omitempty"`
 
 	ConnID    uint32 `json:"conn_id,omitempty"`
 	DeclLen   uint32 `json:"decl_len,omitempty"`
@@ -132,8 +144,8 @@ func cutK(t *rapid.T) int {
 }
 
 func faultGen(t *rapid.T, idx int, slowLeft *int, big bool) Fault {
-	kinds := []string{"cut", "close", "error", "dying", "cut", "undecodable", "hang", "wrongtype", "cut", "garbage", "close", "error",
-		"cut", "undecodable", "dying", "wrongtype", "close", "cut", "hang", "garbage"}
+	kinds := []string{"cut", "close", "error", "dying", "cut", "leave", "undecodable", "hang", "wrongtype", "cut", "garbage", "close", "error",
+		"cut", "undecodable", "dying", "wrongtype", "close", "cut", "hang", "garbage", "leave"}
 	k := rapid.SampledFrom(kinds).Draw(t, "kind")
 	if k == "undecodable" && ev.Known(KnownD11) {
 		ev.Get("C07").AddExtra("excluded_"+KnownD11, 1)
@@ -162,6 +174,13 @@ func faultGen(t *rapid.T, idx int, slowLeft *int, big bool) Fault {
 				f.K = rapid.OneOf(rapid.IntRange(18, 300_000), rapid.IntRange(300_000, 3_400_000)).Draw(t, "k-deep")
 			}
 			f.StallMs = rapid.SampledFrom([]int{0, 20, -1, 1, 100, 0, -1, 5, 250}).Draw(t, "stall")
+			if rapid.IntRange(0, 3).Draw(t, "press") == 0 {
+				// socket pressure from the plugin's own calls; the peer stops reading early
+				f.PressCalls = rapid.SampledFrom([]int{1, 4, 8, 2}).Draw(t, "press-calls")
+				f.PressKB = rapid.SampledFrom([]int{300, 10, 0}).Draw(t, "press-kb")
+				f.K = rapid.SampledFrom([]int{0, 12, 3, 40, 5000}).Draw(t, "press-k")
+				f.StallMs = rapid.SampledFrom([]int{-1, 40, -1, 100, 5, -1, 250}).Draw(t, "press-stall")
+			}
 			if f.StallMs < 0 {
 				// stops reading for good: costs one request timeout, like a hanging handler
 				if *slowLeft == 0 {
@@ -198,6 +217,15 @@ func faultGen(t *rapid.T, idx int, slowLeft *int, big bool) Fault {
 			f.ErrSentinel = rapid.SampledFrom(sentinelNames).Draw(t, "err-sentinel")
 		}
 		f.Again = rapid.Bool().Draw(t, "err-again")
+		if rapid.IntRange(0, 2).Draw(t, "err-then") == 0 {
+			// vetoes and leaves
+			f.Again = false
+			f.Then = rapid.SampledFrom([]string{"stop", "peer"}).Draw(t, "then")
+			f.ThenMs = rapid.SampledFrom(thenDelays).Draw(t, "then-ms")
+		}
+	case "leave":
+		f.Then = rapid.SampledFrom([]string{"stop", "peer"}).Draw(t, "then")
+		f.ThenMs = rapid.SampledFrom(thenDelays).Draw(t, "then-ms")
 	case "wrongtype":
 		f.Type = rapid.SampledFrom([]int{0, 1, 3, 4, 0x7f, 0xff}).Draw(t, "type")
 	case "undecodable":
@@ -232,10 +260,12 @@ func faultGen(t *rapid.T, idx int, slowLeft *int, big bool) Fault {
 	return f
 }
 
+var thenDelays = []int{0, 5, 1, 20, 45, 100}
+
 // launchedFaultGen draws what goes wrong with a pre-installed plugin: only what a process of
 // its own can do by itself (nothing sits between it and the runtime).
 func launchedFaultGen(t *rapid.T, idx int, slowLeft *int) Fault {
-	k := rapid.SampledFrom([]string{"exit", "hang", "close", "exit", "error", "hang", "close"}).Draw(t, "lkind")
+	k := rapid.SampledFrom([]string{"exit", "hang", "close", "leave", "error", "exit", "hang", "close", "error"}).Draw(t, "lkind")
 	if k == "hang" {
 		if *slowLeft == 0 {
 			k = "exit"
@@ -256,6 +286,14 @@ func launchedFaultGen(t *rapid.T, idx int, slowLeft *int) Fault {
 			f.ErrCode = rapid.SampledFrom([]int{8, 4, 14, 2}).Draw(t, "err-code")
 		}
 		f.Again = rapid.Bool().Draw(t, "err-again")
+		if rapid.Bool().Draw(t, "err-then") {
+			f.Again = false
+			f.Then = "exit"
+			f.ThenMs = rapid.SampledFrom(thenDelays).Draw(t, "then-ms")
+		}
+	case "leave":
+		f.Then = "exit"
+		f.ThenMs = rapid.SampledFrom(thenDelays).Draw(t, "then-ms")
 	}
 	return f
 }
